@@ -37,7 +37,8 @@ def _case(draw, tier):
     return {
         "nodes": nodes,
         "labels": labels,
-        "nest": prob(draw, 0.2),
+        "nest": prob(draw, 0.25),
+        "rename_outputs": draw(st.booleans()),
         "omit": draw(st.lists(st.integers(0, 7), max_size=3)),
         "max_iter": draw(st.sampled_from([6, 12, 25])),
         "entry_pick": draw(st.integers(0, 7)),
@@ -205,9 +206,17 @@ def check_case(case, ev):
     labels = set(case["labels"])
     gates = [n for n in nodes if n["k"] in ("ifelse", "route")]
     inner_spec = {"nodes": nodes}
+    out_ren = {}
     if case["nest"]:
         labels.add("nested")
-        gspec = {"nodes": [{"k": "graph", "name": "inner", "graph": {"nodes": nodes, "name": "inner"}}]}
+        wrapper = {"k": "graph", "name": "inner", "graph": {"nodes": nodes, "name": "inner"}}
+        if case.get("rename_outputs"):
+            outs_all = list(dict.fromkeys(o for n in nodes for o in n.get("outs", [])))
+            out_ren = {o: o + "_r" for o in outs_all}
+            if out_ren:
+                wrapper["renames"] = [{"kind": "outputs", "map": out_ren}]
+                labels.add("nested_renamed_outputs")
+        gspec = {"nodes": [wrapper]}
         gname = "inner"
     else:
         gspec = inner_spec
@@ -241,6 +250,14 @@ def check_case(case, ev):
         tag = f"{runner}{' nested' if case['nest'] else ''}"
         monitor(events, nodes, ctx, tag, gname, stats, async_steps=(runner == "async"))
 
+        # through a (renamed) wrapper: a node that never ran contributes no output to the outer result either
+        if case["nest"] and out.status == "completed":
+            for n in nodes:
+                if n["k"] == "func" and not ctx.count(ref.fid(n)):
+                    for o in n.get("outs", []):
+                        ext = out_ren.get(o, o)
+                        if ext in out.values and ext not in vals and o not in vals:  # a caller-supplied entry value stays visible
+                            raise Violation("c03.output_of_unselected", f"[{tag}] inner node {n['name']} never ran but the outer result holds {ext!r}={J(out.values[ext])}", nested=True)
         # reported decisions == decision table applied to the logged arguments
         from hypergraph.events.types import RouteDecisionEvent
 
